@@ -24,7 +24,7 @@ theorem get_format_generated (cs fcs : BitVec 32) (af nc : BitVec 16) (sr br : B
     (cm fs sl ds : BitVec 32) :
     (Librfn.Gen.Wav.rf_wavheader_get_format cs fcs af nc sr br ba bps cb vb cm fs sl ds).1 = getFormatBV af bps := by
   unfold Librfn.Gen.Wav.rf_wavheader_get_format getFormatBV
-  bv_decide
+  bv_decide (config := { timeout := 300 })
 
 theorem getFormatBV_toInt (af bps : BitVec 16) (wh : Wh) (h1 : wh.audioFormat = af) (h2 : wh.bitsPerSample = bps) :
     (getFormatBV af bps).toInt = getFormat wh := by
